@@ -1351,7 +1351,18 @@ func checkC19(h *History, sc *ScanCtx, g *GroupCtx, r *Report) {
 	}
 	// a terminate call that the cloud itself refuses because it would take the group below its minimum means the
 	// request as a whole breached the minimum and should have been refused before any call was made
-	if !lostReply {
+	// (not when this scan's refresh left the group out of its answer: escalator then works from a description that is
+	// a scan old and cannot know that the cloud group's minimum was raised in between)
+	staleDescription := false
+	for _, e := range sc.Rec.Events {
+		if e.API == sim.AwsDescASG && e.Note == "answer leaves out "+g.Cfg.ASG {
+			staleDescription = true
+		}
+	}
+	if staleDescription {
+		r.DC(P, "refresh left the group out of its answer: cloud-side refusals are not judged")
+	}
+	if !lostReply && !staleDescription {
 		for _, e := range g.Events {
 			if e.API == sim.AwsTermASG && !e.OK() && !e.Injected && strings.Contains(e.Err, "min size") {
 				r.Violate(P, "request-breaching-minimum-not-refused", "group %s: %s - the removal request was not refused although it takes the group below its minimum (desired %d, min %d at the call)", g.Cfg.Name, e, e.CloudDesired, e.CloudMin)
@@ -1483,7 +1494,10 @@ func checkC20(h *History, sc *ScanCtx, r *Report) {
 	}
 	for _, e := range rec.Events {
 		if e.API == sim.K8sOther || e.API == sim.AwsOther {
-			r.Violate(P, "unexpected-call", "scan %d: %s", rec.No, e)
+			// not a violation of anything: the statements do not forbid other calls. But the simulated services
+			// answered "not supported", so this history misrepresents the world from here on: inconclusive.
+			r.NoteUnmodelled(fmt.Sprintf("%s %s %s", e.API, e.Verb, e.Note))
+			r.Inc(P, "unmodelled-calls")
 		}
 	}
 	if sc.PostFault {
